@@ -205,6 +205,8 @@ func drvRouter(args []string) int {
 				mapCase(rec, c)
 			case "reg":
 				regCase(rec, c, n)
+			case "live":
+				liveCase(rec, c, n)
 			case "conflict":
 				rec.SetTrace(fmt.Sprintf("cf%d", n), map[string]interface{}{"mode": "conflict", "unknown": false})
 				cmd := exec.Command(os.Args[0], "routeconflict", "-mapper", c.S("mapper"), "-pair", c.S("pair"))
@@ -370,4 +372,161 @@ func regCase(rec *Rec, c DataCase, n int) {
 	}
 	try("/nope")
 	try("Nope.Nothing")
+}
+
+// liveMissBudget: pushes that should run a handler are awaited generously (the machine may be loaded); once a few of them
+// have not run at all in this process the bound is shortened, so that a peer that drops them does not stall the run.
+var liveMissBudget = 3
+
+// liveCase executes one scenario of kind "live" (spec/Router.tla): the steps configure the serving peer (unknown handlers,
+// routes), establish sessions and make rounds of requests on a named session.  What must run in a round is not decided here:
+// the scenario's expectation is copied into a Phase event, the requests report what ran.
+func liveCase(rec *Rec, c DataCase, n int) {
+	rec.SetTrace(fmt.Sprintf("live%d", n), map[string]interface{}{"mode": "live", "mapper": c.S("mapper"), "group": c.S("group"), "unknown": false,
+		"when": c.S("when"), "set": c["set"], "late": c["late"], "rewrite": false})
+	setMapper(c.S("mapper"))
+	srv := erpc.NewPeer(erpc.PeerConfig{})
+	var r routeReg = srv
+	if g := c.S("group"); g != "" {
+		parts := strings.Split(g, "/")
+		sub := srv.SubRoute(parts[0])
+		for _, p := range parts[1:] {
+			sub = sub.SubRoute(p)
+		}
+		r = sub
+	}
+	// the names the scenario's registrations will return, learned on a scratch peer that is configured the same way: every
+	// round requests all of them, also those whose route does not exist yet on the serving peer
+	var allNames []string
+	{
+		probe := erpc.NewPeer(erpc.PeerConfig{})
+		var pr routeReg = probe
+		if g := c.S("group"); g != "" {
+			parts := strings.Split(g, "/")
+			sub := probe.SubRoute(parts[0])
+			for _, p := range parts[1:] {
+				sub = sub.SubRoute(p)
+			}
+			pr = sub
+		}
+		for _, it := range append(strs(c["set"]), strs(c["late"])...) {
+			_, nms := regItem(pr, it)
+			allNames = append(allNames, nms...)
+		}
+		probe.Close()
+	}
+	cli := erpc.NewPeer(erpc.PeerConfig{})
+	defer func() {
+		done := make(chan struct{})
+		go func() { cli.Close(); srv.Close(); close(done) }()
+		select {
+		case <-done:
+		case <-time.After(time.Second):
+		}
+		rec.Flush()
+	}()
+	sessions := map[string]erpc.Session{}
+	pushNames := map[string]bool{}
+	unknownSet := false
+	nconn := 0
+	misses := 0
+	request := func(sname, phase, ns, name string) {
+		cs := sessions[sname]
+		if cs == nil {
+			return
+		}
+		takeRan()
+		code := int32(0)
+		if ns == "call" {
+			res := new(Res)
+			done := make(chan erpc.CallCmd, 1)
+			go func() { done <- cs.Call(name, &Arg{Tag: "r"}, res) }()
+			select {
+			case cmd := <-done:
+				code = cmd.Status().Code()
+			case <-time.After(5 * time.Second):
+				code = -999
+			}
+		} else {
+			cs.Push(name, &Arg{Tag: "r"})
+			// a push is handled asynchronously: wait for its handler only when the configuration made so far can run one
+			// (the timing of the observation, not its verdict, depends on this)
+			if (unknownSet || pushNames[name]) && misses < 2 {
+				bound := 3 * time.Second
+				if liveMissBudget <= 0 {
+					bound = 500 * time.Millisecond
+				}
+				if !WaitUntil(bound, func() bool { ranMu.Lock(); defer ranMu.Unlock(); return len(ran) > 0 }) {
+					liveMissBudget--
+					misses++ // two pushes of this scenario ran nothing within the bound: the rest is observed without waiting
+				}
+			} else {
+				time.Sleep(300 * time.Microsecond)
+			}
+		}
+		got := takeRan()
+		ids := make([]string, len(got))
+		for i, g := range got {
+			ids[i] = strings.SplitN(g, ".", 2)[0]
+		}
+		rec.Emit("Request", "ns", ns, "name", name, "lname", strings.ToLower(name), "ran", ids, "methods", got, "code", code,
+			"sess", sname, "phase", phase, "when", c.S("when"))
+	}
+	steps, _ := c["steps"].([]interface{})
+	for si, raw := range steps {
+		m, _ := raw.(map[string]interface{})
+		st := DataCase(m)
+		switch st.S("op") {
+		case "unknown":
+			id := st.S("id")
+			srv.SetUnknownCall(func(ctx erpc.UnknownCallCtx) (interface{}, *erpc.Status) {
+				noteRan(id + "-call")
+				return []byte(`{"tag":"u"}`), nil
+			})
+			srv.SetUnknownPush(func(ctx erpc.UnknownPushCtx) *erpc.Status { noteRan(id + "-push"); return nil })
+			unknownSet = true
+			rec.Emit("UnknownSet", "id", id, "sessions", len(sessions))
+		case "route":
+			for _, it := range strs(st["items"]) {
+				ns, nms := regItem(r, it)
+				hs := make([]string, len(nms))
+				for i := range hs {
+					hs[i] = it
+				}
+				rec.Emit("Registered", "item", it, "ns", ns, "names", nms, "handlers", hs, "sessions", len(sessions))
+				if ns == "push" {
+					for _, nm := range nms {
+						pushNames[nm] = true
+					}
+				}
+			}
+		case "connect":
+			nconn++
+			cs, _, _, _ := connectPeers(cli, srv, fmt.Sprintf("LC%d_%d", n, nconn), fmt.Sprintf("LS%d_%d", n, nconn))
+			sessions[st.S("sess")] = cs
+			rec.Emit("Connected", "sess", st.S("sess"))
+		case "requests":
+			rec.Emit("Phase", "sess", st.S("sess"), "expunknown", st.S("expunknown"), "step", si)
+			phase := fmt.Sprintf("%d", si)
+			seen := map[string]bool{}
+			try := func(name string) {
+				if name == "" || seen[name] || len(name) > 200 {
+					return
+				}
+				seen[name] = true
+				request(st.S("sess"), phase, "call", name)
+				request(st.S("sess"), phase, "push", name)
+			}
+			for _, name := range allNames {
+				try(name)
+				// near misses
+				try(strings.ToUpper(name))
+				try(strings.ToLower(name) + "x")
+				try(name[:len(name)-1])
+				try("/" + name)
+			}
+			try("/nope")
+			try("Nope.Nothing")
+		}
+	}
 }
